@@ -29,7 +29,7 @@ def gen_cases(tier, seed):
         for rep in range(10 if q else 600):
             cases.append({"type": "numpy", "class": cl, "s": int(rng.integers(1 << 30)),
                           "thr": float(10.0 ** (-int(rng.integers(3, 11)))), "group": "np"})
-    for cl in ["lowrank", "fullrank", "rankone", "eri", "scaled", "tiny", "scaledfull"]:
+    for cl in ["lowrank", "fullrank", "rankone", "eri", "scaled", "tiny", "scaledfull", "blocks", "hubbard"]:
         for rep in range(6 if q else 250):
             cases.append({"type": "jax", "class": cl, "s": int(rng.integers(1 << 30)), "n": int(rng.integers(2, 9)),
                           "group": "jax-%d" % (rep % 8), "cost": 3})
@@ -60,6 +60,15 @@ def make_matrix(rng, cl, n=None):
     elif cl == "scaledfull":
         r = n
         v = rng.normal(size=(n, n)) * (10.0 ** rng.uniform(-5, 1, size=n))[:, None]
+    elif cl == "hubbard":
+        # on-site interaction in the (pq) pair basis: exactly equal diagonal entries (ii|ii) = U, exact ties between different pivots
+        norb = int(rng.integers(2, 4))
+        n = norb * norb
+        v = np.zeros((n, norb))
+        u = float(rng.choice([1.0, 4.0, 8.0]))
+        for g in range(norb):
+            v[g * norb + g, g] = np.sqrt(u)
+        r = norb
     elif cl == "blocks":
         k = int(rng.integers(1, 4))
         m = int(rng.integers(1, 4))
@@ -106,7 +115,8 @@ def run_jax(case):
     # pivoted Cholesky is invariant under diagonal scaling D M D: judge conditioning and errors after normalising the rows of V
     rown = np.linalg.norm(v, axis=1)
     rown = np.where(rown > 0, rown, 1.0)
-    sv = np.linalg.svd(v / rown[:, None], compute_uv=False)
+    keep = np.linalg.norm(v, axis=1) > 0
+    sv = np.linalg.svd((v / rown[:, None])[keep], compute_uv=False)
     cond = float((sv[0] / sv[r - 1]) ** 2) if sv[r - 1] > 0 else float("inf")
     events = []
     cnt = {"jax_routine": 0, "jax_derivative": 0, "jax_skipped_cond": 0}
